@@ -433,11 +433,53 @@ pub fn generate(rng: &mut Rng) -> Workload {
     for (m, v) in models.iter().zip(&names) {
         src.push_str(&m.decl(v));
     }
+    // optionally an immutable second name for one of the captured objects, captured as well.
+    //  Rebound: `let w = v; v = y` before the spawn - the two names refer to different objects
+    //    when the task starts, and each capture must be a copy of the object its own name refers to.
+    //  Shared: `let w = v` only; the task re-binds ITS v (`v = y`) before mutating, after which
+    //    its w must still be the snapshot of the object both names referred to at spawn.
+    // (What a task sees through two names that still refer to one object when both are mutated
+    // is not stated by the property and is not checked.)
+    let mut alias: Option<(usize, usize, bool)> = None; // (index of v, index of w, shared)
+    let mut names = names;
+    if rng.chance(1, 3) {
+        let i = rng.below(n_caps as u64) as usize;
+        let ok = matches!(
+            models[i],
+            Model::ArrInt(_)
+                | Model::ArrStr(_)
+                | Model::Nested(_)
+                | Model::Rec { .. }
+                | Model::Tup(..)
+                | Model::Node(..)
+                | Model::OptArr(_)
+                | Model::ArrRec(_)
+                | Model::Outer { .. }
+                | Model::Tree { .. }
+        );
+        if ok {
+            let shared = rng.chance(1, 3);
+            src.push_str(&models[i].decl(&format!("y{i}")));
+            src.push_str(&format!("let w{i} = v{i}\n"));
+            if !shared {
+                src.push_str(&format!("v{i} = y{i}\n"));
+            }
+            models.push(models[i].clone());
+            names.push(format!("w{i}"));
+            alias = Some((i, n_caps, shared));
+        }
+    }
+    let init_models = models.clone();
+    let is_shared_alias = |k: usize| matches!(alias, Some((_, w, true)) if w == k);
+    let is_alias = |k: usize| matches!(alias, Some((_, w, _)) if w == k);
     // mutations before the spawn are part of the snapshot
-    for (m, v) in models.iter_mut().zip(&names) {
-        if rng.chance(1, 2) {
+    for (k, (m, v)) in models.iter_mut().zip(&names).enumerate() {
+        if rng.chance(1, 2) && !is_shared_alias(k) {
             src.push_str(&m.mutate(rng, &mut g, v, "P", false));
         }
+    }
+    if let Some((i, w, true)) = alias {
+        models[w] = models[i].clone();
     }
     let mut task_models = models.clone();
     let show_all = |ms: &[Model]| -> String {
@@ -463,6 +505,11 @@ pub fn generate(rng: &mut Rng) -> Workload {
         src.push_str("    go.read()\n");
     }
     src.push_str(&format!("    let before = {}\n", show_all(&task_models)));
+    if let Some((i, _, true)) = alias {
+        // y was captured too (never mutated by main): the task's v now refers to its copy of y
+        src.push_str(&format!("    v{i} = y{i}\n"));
+        task_models[i] = init_models[i].clone();
+    }
     for (m, v) in task_models.iter_mut().zip(&names) {
         for line in m.mutate(rng, &mut g, v, "T", true).lines() {
             src.push_str(&format!("    {line}\n"));
@@ -487,7 +534,7 @@ pub fn generate(rng: &mut Rng) -> Workload {
     src.push_str("}\n");
     // optionally a second task capturing the same variables: its copies are independent of the
     // first task's and of the spawner's
-    let second = rng.chance(1, 3);
+    let second = rng.chance(1, 3) && !matches!(alias, Some((_, _, true)));
     let mut second_models = models.clone();
     if second {
         src.push_str("let go2: channel<int> = channel()\nlet done2: channel<string> = channel()\n");
@@ -511,14 +558,22 @@ pub fn generate(rng: &mut Rng) -> Workload {
     if rng.chance(1, 2) {
         src.push_str("pause()\n");
     }
-    for (m, v) in models.iter_mut().zip(&names) {
-        src.push_str(&m.mutate(rng, &mut g, v, "M", false));
+    for (k, (m, v)) in models.iter_mut().zip(&names).enumerate() {
+        if !is_shared_alias(k) {
+            src.push_str(&m.mutate(rng, &mut g, v, "M", false));
+        }
+    }
+    if let Some((i, w, true)) = alias {
+        models[w] = models[i].clone();
     }
     let main_view = want_all(&models);
     src.push_str(&format!("let main_view = {}\n", show_all(&models)));
     if main_drops {
         // the spawner drops what it captured from and collects while the task still uses its copy
-        for (m, v) in models.iter().zip(&names) {
+        for (k, (m, v)) in models.iter().zip(&names).enumerate() {
+            if is_alias(k) {
+                continue; // immutable binding
+            }
             let fresh = match m {
                 Model::ArrInt(_) => format!("{v} = [0]\n"),
                 Model::ArrStr(_) => format!("{v} = [\"z\" .. 0]\n"),
@@ -571,7 +626,12 @@ pub fn generate(rng: &mut Rng) -> Workload {
             if task_first { " task-mutates-first" } else { " main-mutates-first" },
             if task_collects { " task-collects" } else { "" },
             if main_drops { " spawner-drops-and-collects" } else { "" }
-        ) + if second { " two-tasks" } else { "" },
+        ) + if second { " two-tasks" } else { "" }
+            + match alias {
+                Some((_, _, true)) => " alias-rebound-in-task",
+                Some((_, _, false)) => " alias-rebound-before-spawn",
+                None => "",
+            },
         src,
     );
     w.has_tasks = true;
